@@ -17,8 +17,9 @@ CLAIMS = {
         "every usize length/stride/offset/index argument, each typed read returns the big-endian value at the cursor and "
         "advances by exactly its size or fails without effect; arrays, strided and dependent arrays, scopes, iterators, "
         "ReadArrayCow and binary search expose exactly the elements of their window (arrays <= 4 elements). CBMC pointer "
-        "checks make any out-of-bounds get_unchecked a failure. A generated harness per ReadFrom/ReadUnchecked implementor "
-        "found in /repo/src checks exact consumption of T::SIZE bytes.",
+        "checks make any out-of-bounds get_unchecked a failure. read_item/iter_res agree with get_item on strided arrays; every sequence of 3 operations "
+        "from {typed reads, read_slice(n), read_array(n)} follows a reference cursor. A generated harness per public ReadFrom implementor found in "
+        "/repo/src (34 today) checks exact consumption of T::SIZE bytes.",
         "Trusted: Kani's MIR->goto translation, CBMC, CaDiCaL. Outside the bound: buffers > 12 bytes, arrays > 4 elements, "
         "operation sequences longer than 3, ReadCache (std HashMap).",
         "DESIGN.md section 6, C14", TECH_KANI),
@@ -31,16 +32,19 @@ CLAIMS.update({
         "equals the OpenType address arithmetic restated in the harness for every u32 ch (incl. idRangeOffset indexing, modulo-65536 "
         "idDelta, zero entries, 16-bit glyph limit); mappings_fn enumerates exactly what single lookups return (formats 4, 6, 10, 12, "
         "small widths); find_good_cmap_subtable follows the documented preference order over 3 symbolic encoding records; Mac Roman "
-        "conversions are mutual inverses for all 256 bytes and all chars; offset_to_index by MIR->SMT.",
-        "Outside: format 2 (beyond the panic-freedom in C01), more segments/groups than stated, Big5 (encoding_rs), the Symbol/Big5/AppleRoman "
-        "dispatch inside Font::lookup_glyph_index, the 0xFFFF idRangeOffset work-around. Oracles are my restatement of the OpenType cmap chapter.",
+        "conversions are mutual inverses for all 256 bytes and all chars; offset_to_index by MIR->SMT; the encoding dispatch of "
+        "Font::lookup_glyph_index on a Font built by the real Font::new: Windows Symbol (U+F020..U+F0FF and their single-byte aliases reach the "
+        "same glyph) and, thorough, Mac Roman for every char.",
+        "Outside: format 2 (beyond the panic-freedom in C01), more segments/groups than stated, Big5 (encoding_rs), OS/2 usFirstCharIndex other than the default, "
+        "variation-selector presentation matching, the 0xFFFF idRangeOffset work-around. Oracles are my restatement of the OpenType cmap chapter.",
         "DESIGN.md section 6, C06", TECH_KANI + "; " + TECH_SMT),
     "C13": (
         "Bounded solver verdict. Engine B (MIR->SMT of fvar::default_normalize + Fixed ops + F2Dot14::from(Fixed), regenerated from /repo's MIR "
         "on every run, decided by cvc5/z3): for ALL 32-bit min <= default <= max with span < 32768.0 and ALL 32-bit user values: no panic, "
         "min/default/max map to exactly -1/0/+1, clamping outside the range, degenerate axes map to 0, result within one 2.14 unit of the "
         "exact quotient, monotone non-decreasing (two symbolic runs), sign follows the side of the default; no panic for malformed axis "
-        "orders; F2Dot14->Fixed->F2Dot14 identity for all 65536 values. Kani: tuple-length check, a concrete axis over every 32-bit user "
+        "orders; F2Dot14->Fixed->F2Dot14 identity for all 65536 values; Fixed and F2Dot14 multiplication = floor(a*b/2^frac) and division "
+        "(x/0 saturates, x/1.0 = x, no panic) for all operand pairs. Kani: tuple-length check, a concrete axis over every 32-bit user "
         "value through FvarTable::normalize, avar identity map, knot exactness and segment containment for a symbolic knot, axis/segment-map "
         "pairing through FvarTable::normalize with an avar table.",
         "Outside: spans >= 32768.0 (open known finding C13-wide-span), monotonicity and the slope-scaled accuracy bound of the avar step, avar maps "
@@ -71,7 +75,8 @@ CLAIMS.update({
         "Bounded solver verdict for the hmtx compaction step only (through hook H3 on the private subset::create_hmtx_table) - NOT for outlines: for a "
         "source hmtx of 4 glyphs with numberOfHMetrics 1 or 2 (and 3 of 3), all bytes symbolic, and every subset [0, a, b] with a != b, each "
         "retained glyph keeps the advance width and left side bearing HmtxTable::metric reports for its old id, including ids beyond "
-        "numberOfHMetrics whose lsb comes from the trailing array.",
+        "numberOfHMetrics whose lsb comes from the trailing array; GlyfRecord::is_composite (the test the glyf subsetter uses to decide which "
+        "records carry components) is true for every negative contour count.",
         "Outside: contours, composite closure and renumbering (GlyfTable::subset: no answer in 10 min), CFF/CFF2/Type1-to-CID, subroutines, WOFF/WOFF2 "
         "sources, the end-to-end pipeline (40 min, no answer). Thin claim: only one of the five anchored mechanisms.",
         "DESIGN.md section 6, C07", TECH_KANI),
@@ -117,8 +122,10 @@ CLAIMS.update({
         "parses; value -> write -> read identity for TableRecord/LongHorMetric/IndexToLocFormat; placeholders: exact fill lands at the reserved "
         "offset, over-filling a reservation in one or several writes returns PlaceholderMismatch and touches nothing outside; CFF DICT operands "
         "through hook H2: EVERY i32 integer and offset operand survives write->read with the shortest legal encoding and exact consumption, and "
-        "every integer lead byte decodes per the DICT table; offset_size thresholds by MIR->SMT for all usize.",
-        "Outside: whole CFF/CFF2 tables, DICT/INDEX/charset/FDSelect writers, Real operands, OS/2, post, cmap owned writer, glyf records, item variation "
+        "every integer lead byte decodes per the DICT table; the INDEX offset-array serialiser (hook H5) picks the smallest offSize that holds "
+        "the last offset, stores every offset big-endian and refuses offsets beyond 32 bits; post header byte-exact; offset_size thresholds by "
+        "MIR->SMT for all usize.",
+        "Outside: whole CFF/CFF2 tables, DICT/charset/FDSelect writers, Real operands, OS/2 and the owned cmap writer (CBMC out of memory), post names, glyf records, item variation "
         "store (its writer defect is recorded by reading + native run only, DESIGN.md section 7), HmtxTable::write (CBMC out of memory).",
         "DESIGN.md section 6, C15", TECH_KANI + "; " + TECH_SMT),
     "C10": (
